@@ -78,7 +78,7 @@ def judge(case):
     good = [f for i, f in enumerate(frames) if i not in damage]
     herrs = []
     counter = _Count()
-    lg = logging.getLogger("pyrtcm")
+    lg = logging.getLogger()  # root: whichever logger the library uses, its records arrive here
     lg.addHandler(counter)
     old_level = lg.level
     lg.setLevel(logging.DEBUG)
